@@ -255,6 +255,25 @@ class EvalContract(LibModel):
         (hv,) = args
         return [(st, Obj('mapstream', {'node': recv.t, 'in': eng.as_hv(st, hv), 'line': node.lineno}))]
 
+    # ---- clause L (C07): a callee stream is consumed row by row; handing it to a materialising consumer is reported
+    def _materialise(self, eng, st, args, kwargs, node):
+        if args and isinstance(args[0], Obj) and args[0].kind in ('stream', 'mapstream', 'domain', 'gen'):
+            eng.oblige(st, f"L/callee-stream-is-not-materialised@L{node.lineno}", z3.BoolVal(False), line=node.lineno, definite=True)
+            raise OutOfSubset("a callee stream is materialised", node)
+        return None
+
+    def f_list(self, eng, st, args, kwargs, node):
+        self._materialise(eng, st, args, kwargs, node)
+        return super().f_list(eng, st, args, kwargs, node)
+
+    def f_tuple(self, eng, st, args, kwargs, node):
+        self._materialise(eng, st, args, kwargs, node)
+        raise OutOfSubset("tuple()", node)
+
+    def f_sorted(self, eng, st, args, kwargs, node):
+        self._materialise(eng, st, args, kwargs, node)
+        raise OutOfSubset("sorted()", node)
+
     def obj_idmap___getitem__(self, eng, st, recv, args, kwargs, node):
         return [(st, ZV(Z.node_of(eng.as_int(args[0])), 'node'))]
 
